@@ -250,6 +250,9 @@ def make_replay(rep):
     def replay(c):
         w = c.get('witness') or {}
         op = w.get('op')
+        if op == 'follower':
+            from specs import logfollow
+            return logfollow.replay(scn, c)
         if op == 'meta':
             line = 'meta %s %d %s' % (w['kind_hex'], w['pid'], w['text_hex'])
             res = []
@@ -332,6 +335,8 @@ def validate(rep):
 
 
 rep = Replayer(log)
+from lib.scenario import Scenario
+scn = Scenario(log)
 try:
     for kn in range(1, KN + 1):
         for tn in range(0, TN + 1):
@@ -343,6 +348,10 @@ try:
     for n in range(0, TN + 1):
         clean_line_ob(n)
     validate(rep)
+    # last: it replaces logs::write / logs::meta by recording stubs
+    from specs import logfollow
+    logfollow.follower_facts(chk)
     chk.finish(make_replay(rep))
 finally:
     rep.cleanup()
+    scn.cleanup()
